@@ -52,7 +52,7 @@ impl SimDevice {
             blocked: false,
             tx_in_poll: 0,
             rx_in_poll: 0,
-            tx_cap: 10_000,
+            tx_cap: 40_000,
             tx_cap_hit: false,
             prefill: 0xA5,
             now: 0,
